@@ -65,7 +65,7 @@ func (fr *FuncRun) mapDelete(st *State, mt *types.Map, m, k string) {
 	domH, lenH := w.MapDomHeap(mt), w.MapLenHeap()
 	dom, ml := fr.heapCur(st, domH), fr.heapCur(st, lenH)
 	was := fr.def(sBool, and(not(eq(m, "0")), sel(sel(dom, m), k)))
-	fr.heapSet(st, domH, ite(eq(m, "0"), dom, sto(dom, m, sto(sel(dom, m), k, "false"))))
+	fr.heapSet(st, domH, sto(dom, m, sto(sel(dom, m), k, "false")))
 	fr.heapSet(st, lenH, sto(ml, m, ite(was, "(- "+sel(ml, m)+" 1)", sel(ml, m))))
 }
 
@@ -83,6 +83,10 @@ func (fr *FuncRun) execRange(f *Frame, st *State, x *ssa.Range) {
 		ks := w.SortOf(mt.Key())
 		st.cells[key] = Val{T: fmt.Sprintf("((as const (Array %s Bool)) false)", ks), S: "(Array " + ks + " Bool)"}
 		fr.noteCellWrite(key)
+		info.count = cellKey{f.id, rangeCount{x}}
+		st.cells[info.count] = Val{T: "0", S: sInt}
+		fr.noteCellWrite(info.count)
+		info.domAt = fr.heapCur(st, w.MapDomHeap(mt))
 	} else {
 		info.isStr = true
 		key := cellKey{f.id, x}
@@ -129,8 +133,19 @@ func (fr *FuncRun) execNext(f *Frame, st *State, x *ssa.Next) {
 	nv := Val{T: fr.defAlways(vis.S, ite(ok, sto(vis.T, k, "true"), vis.T), "visited"), S: vis.S}
 	st.cells[info.visited] = nv
 	fr.noteCellWrite(info.visited)
+	// number of keys delivered so far; if the map is not changed while ranging it ends at len(m)
+	cnt := st.cells[info.count]
+	fr.assume(st, "(>= "+cnt.T+" 0)")
+	if dom == info.domAt {
+		ml := sel(fr.heapCur(st, w.MapLenHeap()), m)
+		fr.assume(st, ite(ok, "(< "+cnt.T+" "+ite(eq(m, "0"), "0", ml)+")", eq(cnt.T, ite(eq(m, "0"), "0", ml))))
+	}
+	st.cells[info.count] = Val{T: fr.def(sInt, ite(ok, "(+ "+cnt.T+" 1)", cnt.T)), S: sInt}
+	fr.noteCellWrite(info.count)
 	f.regs[x] = Val{Tup: []Val{{T: ok, S: sBool}, {T: k, S: ks}, {T: v, S: vs}}}
 }
+
+type rangeCount struct{ r *ssa.Range }
 
 // channels -----------------------------------------------------------------------
 
@@ -219,7 +234,7 @@ func (fr *FuncRun) syncPoint(f *Frame, st *State) {
 		return
 	}
 	for h := range fr.spawned.heaps {
-		st.heaps[h] = fr.fresh(fr.w.heapSorts[h], h)
+		st.heaps[h] = fr.freshHeap(h)
 	}
 	for c := range fr.spawned.cells {
 		if old, ok := st.cells[c]; ok {
